@@ -451,7 +451,9 @@ class SimValue:
         vop("val.set", self, _always, lambda: setattr(self, "_v", v), v)
 
     def get_lock(self):
-        return SimRLock()
+        if getattr(self, "_lock", None) is None:
+            self._lock = SimRLock()
+        return self._lock
 
 
 class SimList:
@@ -506,6 +508,50 @@ class SimList:
 
     def __contains__(self, v):
         return vop("ml.contains", self, _always, lambda: v in self._l)
+
+    def _call(self, kind, fn, tag=None):
+        """one round trip whose exception (if any) is raised in the caller, like a proxy method"""
+        def eff():
+            try:
+                return ("ok", fn())
+            except Exception as e:      # noqa
+                return ("err", e)
+        k, v = vop(kind, self, _always, eff, tag)
+        if k == "err":
+            raise v
+        return v
+
+    def __delitem__(self, i):
+        self._call("ml.del", lambda: self._l.__delitem__(i), i if isinstance(i, int) else "slice")
+
+    def pop(self, *a):
+        return self._call("ml.pop", lambda: self._l.pop(*a))
+
+    def insert(self, i, v):
+        self._call("ml.insert", lambda: self._l.insert(i, v), i)
+
+    def index(self, *a):
+        return self._call("ml.index", lambda: self._l.index(*a))
+
+    def count(self, v):
+        return self._call("ml.count", lambda: self._l.count(v))
+
+    def reverse(self):
+        self._call("ml.reverse", lambda: self._l.reverse())
+
+    def sort(self, *a, **k):
+        self._call("ml.sort", lambda: self._l.sort(*a, **k))
+
+    def __add__(self, other):
+        return self._call("ml.add", lambda: self._l + list(other))
+
+    def __mul__(self, n):
+        return self._call("ml.mul", lambda: self._l * n)
+
+    __rmul__ = __mul__
+
+    def __reversed__(self):
+        return iter(self._call("ml.reversed", lambda: list(reversed(self._l))))
 
     # no __iter__: like the real ListProxy, iteration falls back to __getitem__(0), (1), ... until IndexError
 
@@ -903,6 +949,10 @@ class SimFile:
         return vop("file.tell", self, _always, lambda: len(self.data) + len(self.buf.encode("utf-8")))
 
     def seek(self, off, whence=0):
+        if whence == 1:
+            off = self.pos + off
+        elif whence == 2:
+            off = len(bytes(self.data)) + off
         self.pos = off
         return off
 
@@ -961,8 +1011,33 @@ def make_os_shim():
         if r is not None:
             raise r
     m.remove = remove
+    m.unlink = remove
     m.getpid = lambda: (W.cur.index + 1000) if W and W.cur else real_os.getpid()
     m.listdir = lambda d: sorted(p.rsplit("/", 1)[-1] for p in W.fs if p.rsplit("/", 1)[0] == d.rstrip("/"))
+    m.cpu_count = lambda: CPU_COUNT[0]
+    # everything that does not touch the file system or processes is the real thing (a module imported by the code under
+    # test may need it); file-system and process functions that are not shimmed stay unknown, so that the harness degrades
+    # instead of silently working on the real disk
+    harmless = {"name", "fspath", "PathLike", "environ", "error", "strerror", "urandom", "curdir", "pardir", "extsep", "altsep",
+                "pathsep", "devnull", "fsencode", "fsdecode", "get_terminal_size", "getenv", "SEEK_SET", "SEEK_CUR", "SEEK_END",
+                "getcwd", "times", "uname", "getppid"}
+
+    def fallback(name):
+        if name in harmless or (name.startswith(("O_", "F_", "EX_", "P_")) and name.isupper()):
+            return getattr(real_os, name)
+        raise AttributeError("module 'os' (verification shim) has no attribute %r" % name)
+    m.__getattr__ = fallback
+    return m
+
+
+def make_io_shim():
+    """`io` with open() on the in-memory file system; the in-memory classes are the real ones."""
+    import io as real_io
+    m = types.ModuleType("io")
+    m.open = sim_open
+    for name in ("StringIO", "BytesIO", "SEEK_SET", "SEEK_CUR", "SEEK_END", "DEFAULT_BUFFER_SIZE", "UnsupportedOperation", "IOBase",
+                 "TextIOBase", "BufferedIOBase", "RawIOBase", "TextIOWrapper", "BufferedReader", "BufferedWriter"):
+        setattr(m, name, getattr(real_io, name))
     return m
 
 
